@@ -106,6 +106,8 @@ class Figure(DirectivePlugin):
             return None
 
         tokens = list(self.parse_tokens(block, content, state))
+        if not tokens:
+            return None
         caption = tokens[0]
         if caption["type"] == "paragraph":
             caption["type"] = "figcaption"
